@@ -1615,6 +1615,190 @@ def wl_near_euclidean(run, rng, idx):
     run.note_class("near-euclidean", n, by, dim, ecls)
 
 
+# ---------------------------------------------------------------------------
+# distances / parameters of every numpy-broadcast-compatible shape
+# (seventh seeding round, C13-r7-1)
+
+AXIS_NAMES = ("k", "m", "c")
+
+
+def broadcast_patterns(rank):
+    """every way an array can broadcast *to* a composite of this rank without
+    enlarging it: the trailing j axes (j = 0..rank), each either full or 1.
+    Patterns are tuples of booleans (True = full size), outermost axis first."""
+    out = [()]
+    for j in range(1, rank + 1):
+        for bits in range(2 ** j):
+            out.append(tuple(bool((bits >> (j - 1 - i)) & 1) for i in range(j)))
+    return out
+
+
+BROADCAST_CASES = [(r, pat) for r in (1, 2, 3) for pat in broadcast_patterns(r)]     # 3 + 7 + 15
+
+
+def pattern_name(rank, pat):
+    names = AXIS_NAMES[rank - len(pat):rank]
+    return "(" + ",".join(nm if full else "1" for nm, full in zip(names, pat)) + \
+        ("," if len(pat) == 1 else "") + ")"
+
+
+def distinct_signed(rng, shape):
+    """unequal values of both signs with one exact zero (when there is room), in
+    random order: magnitudes 0.3 + 0.29 i, so that a re-tiled, transposed or
+    reversed array lands measurably elsewhere."""
+    size = int(np.prod(shape)) if shape else 1
+    vals = (0.3 + 0.29 * np.arange(size)) * rng.choice([-1.0, 1.0], size=size)
+    if size >= 3:
+        vals[int(rng.integers(size))] = 0.0
+    if size >= 2 and not (vals < 0).any():
+        vals[int(np.argmax(np.abs(vals)))] *= -1.0
+    return rng.permutation(vals).reshape(shape)
+
+
+def wl_broadcast(run, rng, idx):
+    """point_along(t) is vectorised: t may be anything numpy broadcasts to the
+    composite shape of the tangent vectors.  Composites of rank 1..3 with unequal
+    axis lengths; t of every compatible shape -- (), (m,), (1,), (k,1), (1,m),
+    (k,m), (1,1), ... (25 patterns) -- with signed, zero and pairwise different
+    values; each resulting point is compared with exp_p(T v) for T =
+    np.broadcast_to(t, shape) (and by the postcondition, which broadcasts the
+    same way).  The tangent vectors come from data or from unit_tangent_towards.
+    C13-r7-1: np.resize(tanh t, shape) re-tiles the flat data; () / (m,) /
+    (k,m) survive, (k,1) against (k,m) is scrambled."""
+    from geometry_tools.hyperbolic import Point, TangentVector
+    from geometry_tools import hyperbolic as H
+    mon = run.monitor("geodesic")
+    rank, pat = BROADCAST_CASES[idx % len(BROADCAST_CASES)]
+    d = 2 + (idx // len(BROADCAST_CASES)) % 4
+    via = ("data", "unit_tangent_towards")[(idx // 3) % 2]
+    sizes = list(rng.permutation([2, 3, 4])[:rank])
+    if rank == 3 and (idx // 7) % 3 == 0:
+        sizes[1] = 1                                  # a composite with a unit axis of its own
+    shape = tuple(int(x) for x in sizes)
+    tshape = tuple(shape[rank - len(pat) + i] if full else 1 for i, full in enumerate(pat))
+    name = pattern_name(rank, pat)
+    t = distinct_signed(rng, tshape)
+    kp = gen_points(rng, d, shape, "bulk")
+    Pp = rh.klein_to_proj(kp)
+    case = {"dimension": d, "shape": list(shape), "t_shape": list(tshape), "t_pattern": name,
+            "tangent_from": via, "klein_p": kp, "t": t}
+    run.current_case = case
+    if via == "data":
+        wp, vp = rand_tangent(rng, Pp, "tangent")
+        case["v"] = vp
+        tv = TangentVector(Point(Pp.copy()), vp.copy()).normalized()
+    else:
+        kq = gen_points(rng, d, shape, "bulk")
+        case["klein_q"] = kq
+        if np.any(r2.dist_klein_ref(kp, kq) < 1e-2):
+            return mon.skip("pair closer than 1e-2")
+        wp = r2.unit_tangent_ref(Pp, rh.klein_to_proj(kq))
+        tv = Point(kp.copy(), model="klein").unit_tangent_towards(Point(kq.copy(), model="klein"))
+    if not tshape:
+        targ = (float(t), np.float64(t), np.array(t))[idx % 3]
+    else:
+        targ = np.array(t) if idx % 2 else np.asfortranarray(t)
+    X = tv.point_along(targ)
+    xk = np.asarray(X.coords("klein"), dtype=float)
+    if not mon.require(xk.shape == kp.shape, "geodesic/point_along/shape/broadcast-distance",
+                       "point_along(t) with t of shape %r (pattern %s) gives Klein shape %r for a "
+                       "composite of shape %r" % (tshape, name, xk.shape, shape), case):
+        return
+    T = np.broadcast_to(t, shape)
+    ct = r2.coord_tol(r2.omr_far(r2.one_minus_r_klein(kp), T))
+    dd = r2.dist_klein_ref(xk, kp)
+    witness = lambda w: dict(case, row=w, index=list(np.unravel_index(w, shape)),
+                             t_broadcast=np.reshape(T, -1)[w], distance=np.reshape(dd, -1)[w])
+    judge_rows(mon, np.abs(dd - np.abs(T)), ct, None, "geodesic/point_along/distance/broadcast-distance",
+               "point_along(t): the point of unit [i] is not at distance |np.broadcast_to(t, shape)[i]| "
+               "from its basepoint", witness)
+    exp = rh.exp_map(Pp, wp, T)
+    judge_rows(mon, r2.dist_klein_ref(xk, exp), ct, None, "geodesic/point_along/position/broadcast-distance",
+               "point_along(t): the point of unit [i] is not exp_p(T[i] v) for T = np.broadcast_to(t, shape)",
+               witness)
+    # the conversion itself keeps the shape of its argument
+    res = np.asarray(H.hyp_to_affine_dist(targ), dtype=float)
+    mon.require(res.shape == tshape and np.allclose(res, np.tanh(t), rtol=0, atol=1e-12),
+                "geodesic/hyp_to_affine_dist/shape-or-value/broadcast-distance",
+                "hyp_to_affine_dist(t) for t of shape %r has shape %r / is not tanh(t) elementwise"
+                % (tshape, res.shape), case)
+    run.note_class("broadcast", rank, name, d, via, 1 in shape)
+
+
+PARAM_SHAPES = ("(k,)", "(k,1)", "(1,m)", "(k,m)", "(1,1)", "(1,)")
+
+
+def wl_broadcast_polygon(run, rng, idx):
+    """the vectorised polygon entry points with parameter arrays of rank 1..2
+    including unit axes, unequal values: regular_polygon(n, radius=/angle=<array>)
+    -> vertex data of shape param.shape + (n, d+1), polygon [i] has the radius /
+    angle param[i] (postcondition + here); regular_polygon_radius /
+    polygon_interior_angle with n and the parameter broadcasting against each
+    other ((k,1) against (m,)): value [i,j] belongs to (n[i], param[j])."""
+    from geometry_tools.hyperbolic import Polygon
+    from geometry_tools import hyperbolic as H
+    mon = run.monitor("polygon")
+    pname = PARAM_SHAPES[idx % 6]
+    k, m = (int(x) for x in rng.permutation([2, 3, 4])[:2])
+    pshape = {"(k,)": (k,), "(k,1)": (k, 1), "(1,m)": (1, m), "(k,m)": (k, m), "(1,1)": (1, 1),
+              "(1,)": (1,)}[pname]
+    n = 3 + (idx // 6) % 9
+    by = ("radius", "angle")[(idx // 2) % 2]
+    dim = 2 + (idx // 4) % 3
+    size = int(np.prod(pshape))
+    amax = r2.max_angle(n)
+    if by == "radius":
+        par = rng.permutation(0.4 + 0.45 * np.arange(size)).reshape(pshape)
+        R, a = par, r2.polygon_angle_ref(n, par)
+    else:
+        par = (rng.permutation(0.15 + 0.7 * (np.arange(size) + 0.5) / size) * amax).reshape(pshape)
+        R, a = r2.polygon_radius_ref(n, par), par
+    case = {"n": n, "by": by, "dimension": dim, "parameter_shape": list(pshape),
+            "parameter_pattern": pname, "parameter": par}
+    run.current_case = case
+    poly = call_regular_polygon(Polygon, n, {by: np.array(par), "dimension": dim}, idx)
+    vk = np.asarray(poly.get_vertices().coords("klein"), dtype=float)
+    if mon.require(vk.shape == pshape + (n, dim), "polygon/vertices-shape/parameter-array",
+                   "regular_polygon(%d, %s=<array of shape %r>): get_vertices().coords('klein') has "
+                   "shape %r, expected %r" % (n, by, pshape, vk.shape, pshape + (n, dim)), case):
+        V = flat(rh.klein_to_proj(vk), 2)
+        Rf = np.reshape(R, -1).astype(float)
+        af = np.reshape(a, -1).astype(float)
+        slack = 1.0 / (1.0 - af / amax) if by == "angle" else np.ones_like(af)
+        what = {"radius": "polygon [i] does not have the circumradius belonging to parameter [i]",
+                "sides": "polygon [i] does not have the side length belonging to parameter [i]",
+                "angle": "polygon [i] does not have the interior angle belonging to parameter [i]",
+                "planar": "vertices do not span a 2-plane"}
+        for name, (err, tol) in polygon_report(V, n, Rf, af).items():
+            judge_rows(mon, err, tol * slack, None, "polygon/%s/by-%s/parameter-array" % (name, by),
+                       what[name], lambda w: dict(case, row=w, index=list(np.unravel_index(w, pshape)),
+                                                  expected_radius=Rf[w], expected_angle=af[w],
+                                                  vertices_klein=klein_of(V[w])))
+    # formulas: n of shape (k,1) against a parameter of shape (m,)
+    nn = (3 + rng.permutation(8)[:k]).reshape(k, 1)
+    frac = rng.permutation(0.2 + 0.6 * (np.arange(m) + 0.5) / m)
+    a_row = frac * ((nn.min() - 2) * math.pi / nn.min())        # (m,): admissible for every n
+    case2 = {"n": nn, "angle": a_row, "class": "n (k,1) against angle (m,)"}
+    run.current_case = case2
+    Rkm = np.asarray(H.regular_polygon_radius(nn, a_row.copy()), dtype=float)
+    if mon.require(Rkm.shape == (k, m), "polygon/formulas-shape/broadcast",
+                   "regular_polygon_radius(n (k,1), a (m,)) has shape %r, expected %r"
+                   % (Rkm.shape, (k, m)), case2):
+        ref = r2.polygon_radius_ref(np.broadcast_to(nn, (k, m)), np.broadcast_to(a_row, (k, m)))
+        judge_rows(mon, np.abs(Rkm - ref), 1e-9 * (1 + ref), None, "polygon/formulas/radius/broadcast",
+                   "regular_polygon_radius(n, a)[i,j] is not the radius for (n[i], a[j])",
+                   lambda w: dict(case2, row=w))
+        Akm = np.asarray(H.polygon_interior_angle(nn, Rkm[0].copy()), dtype=float)
+        if mon.require(Akm.shape == (k, m), "polygon/formulas-shape/broadcast",
+                       "polygon_interior_angle(n (k,1), R (m,)) has shape %r" % (Akm.shape,), case2):
+            ref2 = r2.polygon_angle_ref(np.broadcast_to(nn, (k, m)), np.broadcast_to(Rkm[0], (k, m)))
+            judge_rows(mon, np.abs(Akm - ref2), 1e-9 / np.sin(math.pi / np.broadcast_to(nn, (k, m))),
+                       None, "polygon/formulas/angle/broadcast",
+                       "polygon_interior_angle(n, R)[i,j] is not the angle for (n[i], R[j])",
+                       lambda w: dict(case2, row=w))
+    run.note_class("broadcast-polygon", pname, by, dim)
+
+
 T_CLASSES = ("zero", "tiny", "moderate", "large")
 
 
@@ -2097,6 +2281,8 @@ WORKLOADS = [
     Workload("tangent-scales", wl_tangent_scales, quick=96, thorough=11520),
     Workload("towards-close", wl_towards_close, quick=64, thorough=5760),
     Workload("point_along", wl_point_along, quick=192, thorough=23040),
+    Workload("broadcast", wl_broadcast, quick=100, thorough=8000),
+    Workload("broadcast-polygon", wl_broadcast_polygon, quick=48, thorough=2880),
     Workload("towards", wl_towards, quick=96, thorough=11520),
     Workload("angle", wl_angle, quick=96, thorough=11520),
     Workload("polygon", wl_polygon, quick=132, thorough=9504),
